@@ -1568,6 +1568,36 @@ def install_models(I):
         return Agg([], "tuple")
     M["core::slice::[T]::reverse"] = reverse
 
+    def ordering(x, y):
+        return Agg([], "adt", "core::cmp::Ordering", "Less" if x < y else ("Equal" if x == y else "Greater"))
+
+    def ord_cmp(I, a, f):
+        x, y = deref(a[0]), deref(a[1])
+        if isinstance(x, bool):
+            x = int(x)
+        if isinstance(y, bool):
+            y = int(y)
+        if isinstance(x, int) and isinstance(y, int):
+            return ordering(x, y)
+        raise Unanalysable("Ord::cmp of %r, %r" % (x, y))
+    for ty_ in ("u8", "u16", "u32", "u64", "usize", "i32", "i64", "isize"):
+        S.append(("cmp::impls::%s@Ord::cmp" % ty_, ord_cmp))
+        S.append(("cmp::impls::%s@PartialOrd::partial_cmp" % ty_, lambda I, a, f: some(ord_cmp(I, a, f))))
+
+    def binary_search_by(I, a, f):
+        """on a slice whose comparator yields concrete orderings: Ok(index of an Equal element) or Err(insertion point)"""
+        sl = slice_of(I, a[0])
+        res = []
+        for i in range(sl.len):
+            r = deref(I.call_closure(a[1], [sl.at(i)]))
+            if not (isinstance(r, Agg) and r.variant in ("Less", "Equal", "Greater")):
+                raise Unanalysable("binary_search_by with a symbolic comparator result %r" % (r,))
+            res.append(r.variant)
+        if "Equal" in res:
+            return Agg([res.index("Equal")], "adt", "core::result::Result", "Ok")
+        return Agg([sum(1 for r in res if r == "Less")], "adt", "core::result::Result", "Err")
+    M["core::slice::[T]::binary_search_by"] = binary_search_by
+
     def to_vec(I, a, f):
         return Agg([clone_val(v) for v in slice_of(I, a[0]).values()], "vec")
     M["alloc::slice::[T]::to_vec"] = to_vec
@@ -2259,6 +2289,12 @@ def install_models(I):
                         return Term("!=" if neg else "==", u, w)
                     if isinstance(u, Poly) and isinstance(w, Poly):
                         return Term("ne" if neg else "eq", u, w)
+                if all(isinstance(u, Poly) and isinstance(w, Poly) for u, w in syms):
+                    # a derived equality over several field elements: the conjunction, decided pair by pair (forks)
+                    for u, w in syms:
+                        if not I.decide(Term("eq", u, w), "peq"):
+                            return neg
+                    return not neg
             return Term("ne" if neg else "eq", repr(x), repr(y))
         return m
     S.append(("@PartialEq::eq", peq(False)))
